@@ -511,7 +511,8 @@ def correspondence(ctx):
 
 
 # ---- the property-level oracle (independent of the Coq model) ---------------------------------------------------
-ULP4 = 1 - 8 * 2.0 ** -53
+ULP4 = 1 - 1e-9         # exactly collinear readings: +-1 up to rounding (a shortfall of a few ulp times the conditioning
+                        # offset / spread is not a violation of the textbook definition; overshoot beyond 1 is)
 
 
 def errs_list(case):
